@@ -54,7 +54,7 @@ RUN_LIMIT = float(os.environ.get('ZSIM_RUN_LIMIT', '150'))
 
 
 class RunTimeout(BaseException):
-    """One run used more than RUN_LIMIT real seconds (normal runs take
+    """One run used more than RUN_LIMIT CPU seconds (normal runs take
     milliseconds to a few seconds): the code under test does not
     terminate on this case."""
 
@@ -95,11 +95,14 @@ def _stop_stray_threads():
 def run_one(mod, case):
     """Run one case in this process with full per-run hygiene.  Returns the
     result dict (never raises for property violations).  A run that does
-    not finish within RUN_LIMIT real seconds is a violation
+    not finish within RUN_LIMIT CPU seconds is a violation
     ('does-not-terminate'), not a harness error."""
     import signal
-    old = signal.signal(signal.SIGALRM, _on_alarm)
-    signal.setitimer(signal.ITIMER_REAL, RUN_LIMIT)
+    # CPU time of this process, not wall time: a loaded machine must not
+    # turn a slow run into a verdict (a run that loops burns CPU; one that
+    # blocks is the scheduler's deadlock detection's business)
+    old = signal.signal(signal.SIGPROF, _on_alarm)
+    signal.setitimer(signal.ITIMER_PROF, RUN_LIMIT)
     try:
         return _run_one(mod, case)
     except RunTimeout as e:
@@ -107,14 +110,14 @@ def run_one(mod, case):
         _stop_stray_threads()
         return {'violations': [{
             'oracle': 'does-not-terminate',
-            'detail': 'the run did not finish within %d real seconds '
+            'detail': 'the run did not finish within %d seconds of CPU time '
                       '(runs of this check take milliseconds to seconds); '
                       'executing: %s' % (RUN_LIMIT, str(e)[:600])}],
             'stats': {'runs_timed_out': 1}, 'keys': [], 'evals': 1,
             'sample': None, 'digest': 'timeout'}
     finally:
-        signal.setitimer(signal.ITIMER_REAL, 0)
-        signal.signal(signal.SIGALRM, old)
+        signal.setitimer(signal.ITIMER_PROF, 0)
+        signal.signal(signal.SIGPROF, old)
 
 
 def _run_one(mod, case):
